@@ -134,8 +134,8 @@ def py_exec(p: Program, alias: str) -> ObjExec:
     return ex
 
 
-def namespace(ex: ObjExec, alias: str) -> dict[str, Any]:
-    """The names the import statement of the library brings into scope under this alias."""
+def namespace(ex: ObjExec, alias: str, line: str | None = None) -> dict[str, Any]:
+    """The names the import statement of the library (or the statement `line` found in exported code) brings into scope."""
     p = ex.p
     names: dict[str, Any] = {}
     for q, c in p.classes.items():
@@ -148,7 +148,7 @@ def namespace(ex: ObjExec, alias: str) -> dict[str, Any]:
     for nm, val in (("inf", float("inf")), ("nan", float("nan")), ("array", ex.globals["array"]), ("scalar", ex.globals["scalar"])):
         if not exported or nm in exported:
             names[nm] = val
-    line = import_line(ex)
+    line = import_line(ex) if line is None else line
     if line.startswith("<"):
         raise Unknown("Representation.import_statement is outside the interpreter's model")
     try:
@@ -353,6 +353,9 @@ def py_roundtrip(check: Check, rule: str = "PY-sem") -> None:
             compared += count_fields(eng, set())
             for d in diffs:
                 bad.setdefault("structure:" + field_key(d), (f"{label}: after repr and eval, {re.sub(r'^<[^>]+> ', '', d)}", None))
+            if label.startswith("model engine 1") or "assignment" in label:
+                components_alone(ex, eng, alias, label, bad)
+                encapsulated(ex, eng, alias, label, bad, undecided)
             if text != text2:
                 i = next((k for k, (x, y) in enumerate(zip(text, text2)) if x != y), min(len(text), len(text2)))
                 bad.setdefault("fixed-point", (f"{label}: the rebuilt engine represents itself differently: `...{text[max(0, i - 40):i + 40]}...` becomes `...{text2[max(0, i - 40):i + 40]}...`", None))
@@ -371,12 +374,121 @@ def py_roundtrip(check: Check, rule: str = "PY-sem") -> None:
     if not structure_keys:
         check.ok(rule, f"{construct}/structure", f"eval(repr(E)) equals E field by field on the {cases} model engines x alias settings ({compared} fields compared)", loc(rep_fn), {},
                  exhaustive=True, cases=cases)
-    for aspect, good in (("evaluates", "every representation is a Python expression that evaluates under its alias setting"),
+    for aspect, good in (("components", "every component represented on its own (variables, terms, rule blocks, rules, norms, activation methods, defuzzifiers) is rebuilt equal"),
+                         ("encapsulated", "the code PythonExporter(encapsulated=True) writes brings its own import statement and rebuilds the engine"),
+                         ("evaluates", "every representation is a Python expression that evaluates under its alias setting"),
                          ("fixed-point", "repr(eval(repr(E))) == repr(E), and both engines export the same FuzzyLite Language text")):
         hit = bad.get(aspect)
         where = loc(rep_fn)
         check.require(hit is None, rule, f"{construct}/{aspect}", good if hit is None else hit[0], where, {}, exhaustive=True, cases=cases)
     check.notes.append(f"{rule}: {cases} model engines x alias settings, {compared} fields compared")
+
+
+def evaluate_text(ex: ObjExec, text: str, env0: dict[str, Any]) -> Any:
+    code, phs = lift_placeholders(text)
+    tree = ast.parse(code, mode="eval")
+    env = {**env0, **phs, "<module>": "__main__"}
+    missing = unresolved(tree, env)
+    if missing:
+        raise Internal("NameError", f"`{missing}` does not resolve")
+    return ex.ev(tree.body, env)
+
+
+def components_alone(ex: ObjExec, eng: MObj, alias: str, label: str, bad: dict) -> None:
+    """"The same holds for the representation of each component on its own": every component of the engine, represented and evaluated by itself."""
+    parts: list[tuple[str, Any]] = []
+    for coll in ("input_variables", "output_variables", "rule_blocks"):
+        for c in eng.fields.get(coll, []):
+            parts.append((f"{coll[:-1]} {c.fields.get('name')}", c))
+            for t in c.fields.get("terms", []) if coll != "rule_blocks" else []:
+                parts.append((f"term {t.fields.get('name')} ({t.cls})", t))
+            for k in ("defuzzifier", "activation", "conjunction", "disjunction", "implication"):
+                v = c.fields.get(k)
+                if isinstance(v, MObj):
+                    parts.append((f"{k} {v.cls}", v))
+            agg = c.fields.get("fuzzy").fields.get("aggregation") if isinstance(c.fields.get("fuzzy"), MObj) else None
+            if isinstance(agg, MObj):
+                parts.append((f"aggregation {agg.cls}", agg))
+            for rl in c.fields.get("rules", []) if coll == "rule_blocks" else []:
+                parts.append(("rule", rl))
+    env0 = namespace(ex, alias)
+    seen_cls: set[str] = set()
+    for what, obj in parts:
+        key = obj.cls + ("" if obj.cls not in ("Rule",) else str(id(obj)))
+        if key in seen_cls and obj.cls not in ("InputVariable", "OutputVariable", "RuleBlock"):
+            continue
+        seen_cls.add(key)
+        try:
+            text = ex.to_repr(obj, E0)
+            back = evaluate_text(ex, text, env0)
+        except (Raised, Internal) as err:
+            bad.setdefault("components", (f"{label}: the {what} represented on its own does not evaluate: {err.cls}{(' (' + err.why + ')') if isinstance(err, Internal) else ''}", None))
+            continue
+        except (Unknown, SyntaxError):
+            continue
+        diffs: list[str] = []
+        differences(obj, back, "", diffs, set(), limit=4)
+        diffs = [d for d in diffs if "Rule.enabled" not in d]  # the known finding is reported once, on the engine
+        if diffs:
+            bad.setdefault("components", (f"{label}: the {what} represented on its own comes back different: {re.sub(r'^<[^>]+> ', '', diffs[0])}", None))
+
+
+def encapsulated(ex: ObjExec, eng: MObj, alias: str, label: str, bad: dict, undecided: list[str]) -> None:
+    """The code `PythonExporter(formatted=False, encapsulated=True).to_string(engine)` writes: its own import statement(s) give the namespace, the
+    expression assigned to `self.engine` (or returned by the factory function) is evaluated in it and must rebuild the engine."""
+    p = ex.p
+    pc = p.classes.get("PythonExporter")
+    if pc is None or pc.lookup("to_string") is None:
+        return
+    try:
+        pe = ex.instantiate(pc, [], {"formatted": False, "encapsulated": True}, E0)
+        code = ex.invoke(pc.lookup("to_string"), [pe, eng], {}, E0)
+    except (Raised, Internal) as err:
+        bad.setdefault("encapsulated", (f"{label}: PythonExporter(encapsulated=True).to_string fails with {err.cls}", None))
+        return
+    except Unknown as u:
+        undecided.append(f"{label}: encapsulated export: {u}")
+        return
+    if not isinstance(code, str):
+        return
+    lifted, phs = lift_placeholders(code)
+    try:
+        mod = ast.parse(lifted)
+    except SyntaxError as se:
+        bad.setdefault("encapsulated", (f"{label}: the encapsulated code is not Python ({se.msg})", None))
+        return
+    env0: dict[str, Any] = {}
+    for st in mod.body:
+        if isinstance(st, (ast.Import, ast.ImportFrom)):
+            env0.update(namespace(ex, alias, ast.unparse(st)))
+    expr = None
+    for node in ast.walk(mod):
+        if isinstance(node, ast.Assign) and any(isinstance(t, ast.Attribute) and t.attr == "engine" for t in node.targets):
+            expr = node.value
+        elif isinstance(node, ast.Return) and node.value is not None and expr is None:
+            expr = node.value
+    if expr is None:
+        bad.setdefault("encapsulated", (f"{label}: the encapsulated code builds no engine", None))
+        return
+    env = {**env0, **phs, "<module>": "__main__"}
+    missing = unresolved(expr, env)
+    if missing:
+        bad.setdefault("encapsulated", (f"{label}: `{missing}` in the encapsulated code does not resolve after the import statements the code itself brings "
+                                        f"({'; '.join(ast.unparse(s_) for s_ in mod.body if isinstance(s_, (ast.Import, ast.ImportFrom))) or 'none'})", None))
+        return
+    try:
+        back = ex.ev(expr, env)
+    except (Raised, Internal) as err:
+        bad.setdefault("encapsulated", (f"{label}: evaluating the encapsulated code fails with {err.cls}", None))
+        return
+    except Unknown as u:
+        undecided.append(f"{label}: encapsulated export: {u}")
+        return
+    diffs: list[str] = []
+    differences(eng, back, "", diffs, set(), limit=4)
+    diffs = [d for d in diffs if "Rule.enabled" not in d]
+    if diffs:
+        bad.setdefault("encapsulated", (f"{label}: the engine built by the encapsulated code differs: {re.sub(r'^<[^>]+> ', '', diffs[0])}", None))
 
 
 # ---------------------------------------------------------------------------------------------- R1-sem
